@@ -14,11 +14,11 @@ THEOREMS = ["PotasscoVerif.C16.C16_roundtrip_signed", "PotasscoVerif.C16.C16_rou
             "PotasscoVerif.C16.C16_keyword_imax", "PotasscoVerif.C16.C16_keyword_imin", "PotasscoVerif.C16.C16_keyword_umax", "PotasscoVerif.C16.C16_keyword_minus_one",
             "PotasscoVerif.C16.C16_unsigned_rejects_negative",
             "PotasscoVerif.C16.matched_signed", "PotasscoVerif.C16.matched_unsigned", "PotasscoVerif.C16.C16_pair_roundtrip", "PotasscoVerif.C16.C16_pair_paren",
-            "PotasscoVerif.C16.C16_list_roundtrip", "PotasscoVerif.C16.C16_pair_int_unsigned", "PotasscoVerif.C16.C16_list_int"]
-EXTRA_MODULES = ["PotasscoVerif.Props.C16b", "PotasscoVerif.Props.C16c"]
-PARTIAL = {"C16_accept_iff_fits for unsigned decimal texts / enumerations": "accepted-iff-it-fits is proved for decimal (signed), hexadecimal and octal (signed and unsigned) texts of any length and for the keywords; "
-           "value -> text -> value is proved for all scalar types, for pairs and non-empty lists of matched members (Props/C16c: C16_pair_roundtrip, C16_pair_paren, C16_list_roundtrip and the instances the library uses); "
-           "unsigned decimal texts other than those the library writes and enumerations are decided by the correspondence run, the big-integer oracle and the EnumClass reference"}
+            "PotasscoVerif.C16.C16_list_roundtrip", "PotasscoVerif.C16.C16_pair_int_unsigned", "PotasscoVerif.C16.C16_list_int", "PotasscoVerif.C16.C16_decimal_exact_unsigned",
+            "PotasscoVerif.C16.C16_enum_Head_t", "PotasscoVerif.C16.C16_enum_Body_t", "PotasscoVerif.C16.C16_enum_Value_t", "PotasscoVerif.C16.C16_enum_Heuristic_t", "PotasscoVerif.C16.C16_enum_Directive_t",
+            "PotasscoVerif.C16.C16_enum_Theory_t", "PotasscoVerif.C16.C16_enum_Tuple_t", "PotasscoVerif.C16.C16_enum_Clause_t", "PotasscoVerif.C16.C16_enum_Statistics_t", "PotasscoVerif.C16.C16_enum_roundtrip"]
+EXTRA_MODULES = ["PotasscoVerif.Props.C16b", "PotasscoVerif.Props.C16c", "PotasscoVerif.Props.C16d"]
+PARTIAL = {}
 BSIZES = (4096,)
 RULE = ("values: boundary neighbourhoods of every 32/64-bit type, powers of two and ten, random (thorough: additionally a 2^20-value stratified sweep of the 32-bit types); strings: optional sign, "
         "base prefix (0x/0X/0), digit strings of 1..40 digits incl. values around every type limit in bases 8/10/16, keywords imax/imin/umax/-1, optional trailing characters; "
@@ -29,7 +29,10 @@ TECHNIQUE = "Lean 4 theorems on the conversion model (decimal round trip for all
 LEVEL_TEXT = ("C16_roundtrip_signed/_unsigned: for EVERY value of every signed/unsigned integer type within 64 bit the written text reads back as exactly that value with the end "
               "position at the end (max written as 'umax'); C16_decimal_exact: a decimal text with a digit string of ANY length is accepted for a signed type iff the denoted number "
               "lies in the type's range, value exact, end right behind the digits; bool/char round trips. C16_hex_signed/_unsigned, C16_octal_signed/_unsigned (Props/C16b.lean): `0x`/`0` prefix, a digit string of ANY length in that base, then no digit of the base: accepted iff the denoted "
-              "number fits the type (numbers beyond 64 bit are refused, never wrapped), value exact, end right behind the digits; C16_keyword_*: imax, imin, umax, -1; C16_unsigned_rejects_negative. Composite types and enumerations: decided by "
+              "number fits the type (numbers beyond 64 bit are refused, never wrapped), value exact, end right behind the digits; C16_keyword_*: imax, imin, umax, -1; C16_unsigned_rejects_negative; C16_decimal_exact_unsigned (Props/C16c.lean). "
+              "Props/C16c.lean: pairs and non-empty lists of matched members (text -> exactly the value, end at the end; with or without parentheses), instances for pair<int,unsigned> and vector<int>. "
+              "Props/C16d.lean: for each of the library's nine enumerations (declaration text and constant table regenerated from the headers on every run) every constant is written as its name and the name, alone or "
+              "followed by a separator, is converted back to exactly that constant; numbers outside the declared constants are refused (finite tables, decided by the kernel over the whole table).  Composite types and enumerations: decided by "
               "model == xconvert on generated texts/values and by an independent big-integer oracle on the implementation (incl. a stale-errno variant).")
 LEVEL_NOTE = ("Proved about Model/StringConvert.lean with strtoll/strtoull as the written-out contract `strto`; model==code on ~12k (quick) / 300k + 2^21 stratified values (thorough). "
               "The exhaustive 2^32 sweep planned in DESIGN.md is replaced by the theorem for all values plus the stratified sweep. Trusted: Lean kernel+axioms, harness, ref_parse() oracle.")
@@ -134,11 +137,12 @@ def gen_enumc(rng):
     for i, nm in enumerate(names):
         if i == 0 or rng.random() < 0.5:
             cur = lo if i == 0 else cur + rng.randint(1, 3)
-            parts.append("%s = %d" % (nm, cur))
+            parts.append("%s%s%d" % (nm, rng.choice([" = ", " = ", "=", " =", "= ", "  =  "]), cur))
         else:
             cur += 1; parts.append(nm)
         vals.append(cur)
-    rep = ", ".join(parts); hi = vals[-1]
+    sp = rng.choice([", ", ", ", ",", " , ", ",  "])
+    rep = sp.join(parts); hi = vals[-1]
     if rng.random() < 0.3: return enumc_case(rep, lo, hi, "i", rng.choice(vals + [hi + 1, lo - 1, rng.randint(lo, hi)]))
     nm = rng.choice(names + ENAMES[:4])
     tx = rng.choice([nm, nm, nm + "x", nm + "1", nm + "_", nm[:-1], nm + ",rest", nm + " ", nm + "=1", nm.lower(), nm + "Static", str(rng.choice(vals)), str(hi + 1), str(rng.randint(lo - 1, hi + 1))])
@@ -191,8 +195,8 @@ def evaluate(ctx, cases):
         return "sc %s %s%s" % (c["t"], c["op"], "" if c["arg"] is None else " " + c["arg"])
     lines = [line(c) for c in cases]
     impl = ctx.impl(lines)
-    modelable = [k for k, c in enumerate(cases) if c["t"] in RANGES or c["t"] in ("bool", "char", "pair", "vec")]
-    mres = dict(zip(modelable, ctx.model(["sc %s %s %s" % (cases[k]["t"], "p" if cases[k]["op"] == "P" else cases[k]["op"], cases[k]["arg"]) for k in modelable])))
+    modelable = [k for k, c in enumerate(cases) if c["t"] in RANGES or c["t"] in ("bool", "char", "pair", "vec", "enumc")]
+    mres = dict(zip(modelable, ctx.model([lines[k] if cases[k]["t"] == "enumc" else "sc %s %s %s" % (cases[k]["t"], "p" if cases[k]["op"] == "P" else cases[k]["op"], cases[k]["arg"]) for k in modelable])))
     back = []   # round trips: write results to be parsed again
     for k, (c, i) in enumerate(zip(cases, impl)):
         ctx.count()
@@ -201,6 +205,8 @@ def evaluate(ctx, cases):
         if not isinstance(i, str):
             ctx.fail("C16:crash", "crash / sanitizer abort in a conversion", c, {"stderr": i[2][-1500:]}); continue
         if c["t"] == "enumc":
+            ctx.compared += 1
+            if i != mres[k]: ctx.disagree("enumclass:%s" % c["op"], c, i, mres[k])
             exp = enumc_expected(c)
             if i != exp: ctx.fail("C16:enum-class", "an enumeration name/value is not converted to exactly the constant with that name/value (first declared wins; a longer or shorter word is another word)", c, {"impl": i, "expected": exp})
             else: ctx.nontrivial(("enumc", c["rep"], c["arg"]))
